@@ -18,6 +18,7 @@ pub mod c13;
 pub mod c14;
 pub mod c15;
 pub mod c16;
+pub mod c17;
 pub mod c18;
 pub mod c19;
 pub mod c20;
@@ -43,6 +44,7 @@ pub fn run(args: &Args, r: &mut Report) -> bool {
         "C14" => c14::run(args, r),
         "C15" => c15::run(args, r),
         "C16" => c16::run(args, r),
+        "C17" => c17::run(args, r),
         "C18" => c18::run(args, r),
         "C19" => c19::run(args, r),
         "C20" => c20::run(args, r),
